@@ -1,12 +1,14 @@
 /-
 Helper lemmas for C11 (part 1): the state invariant of the interleaving machine with the orders extracted
-from the source (`Cfg.real`), its preservation by every step, and its first consequences
+from the source (`Cfg.of d`: with or without de-duplication of the request list), its preservation by every step, and its first consequences
 (what a read of a segment sees now = everything ever flushed to it; the rotated map only grows).
 -/
 import SigModel.Model.Conc
 set_option linter.unusedSimpArgs false
 namespace SigModel.Lemmas.C11
 open SigModel.Conc
+
+variable {d : Bool}
 
 def added (st : Store) : Prop := st.todo = [.removeUnrot, .reset] ∨ st.todo = [.reset]
 def removed (st : Store) : Prop := st.todo = [.reset]
@@ -91,13 +93,13 @@ theorem inv_flush (s : St) (i : Nat) (h : Inv s) : Inv (flush s i) := by
       exact (hm0.mp ha) ht
     · exact h.segs_nodup
 
-theorem inv_rot (s : St) (i : Nat) (h : Inv s) : Inv (rotStep Cfg.real s i) := by
+theorem inv_rot (s : St) (i : Nat) (h : Inv s) : Inv (rotStep (Cfg.of d) s i) := by
   unfold rotStep
   rcases h.todoOk i with h0 | h0 | h0 | h0 <;> simp only [h0]
   · -- idle
     by_cases hn : (s.store i).nblocks = 0
     · simp [hn]; exact h
-    · simp only [hn, if_false, Cfg.real, applyRot]
+    · simp only [hn, if_false, Cfg.of, applyRot]
       constructor
       · intro j
         by_cases hj : j = i
@@ -292,10 +294,10 @@ theorem inv_q (cfg : Cfg) (s : St) (j : Nat) (k : Bool) (h : Inv s) : Inv (qStep
   obtain ⟨qf, hq⟩ := qStep_frame cfg s j k
   rw [hq]; exact inv_frame s qf h
 
-theorem inv_step (s : St) (l : Label) (h : Inv s) : Inv (step Cfg.real s l) := by
+theorem inv_step (s : St) (l : Label) (h : Inv s) : Inv (step (Cfg.of d) s l) := by
   cases l with
   | flush i => exact inv_flush s i h
-  | rot i => exact inv_rot s i h
+  | rot i => exact inv_rot (d := d) s i h
   | q j k => exact inv_q _ s j k h
 
 theorem run_append (cfg : Cfg) (s : St) (l1 l2 : List Label) :
@@ -305,7 +307,7 @@ theorem run_append (cfg : Cfg) (s : St) (l1 l2 : List Label) :
 theorem run_cons (cfg : Cfg) (s : St) (l : Label) (ls : List Label) :
     run cfg s (l :: ls) = run cfg (step cfg s l) ls := rfl
 
-theorem inv_run (s : St) (ls : List Label) (h : Inv s) : Inv (run Cfg.real s ls) := by
+theorem inv_run (s : St) (ls : List Label) (h : Inv s) : Inv (run (Cfg.of d) s ls) := by
   induction ls generalizing s with
   | nil => exact h
   | cons l ls ih => exact ih _ (inv_step s l h)
@@ -313,7 +315,7 @@ theorem inv_run (s : St) (ls : List Label) (h : Inv s) : Inv (run Cfg.real s ls)
 /-- a generic induction principle: a property of states that holds initially and is preserved by every
 step from a state satisfying the invariant holds after every schedule -/
 theorem run_induction (P : St → Prop) (s : St) (ls : List Label) (hs : Inv s) (h0 : P s)
-    (hstep : ∀ s l, Inv s → P s → P (step Cfg.real s l)) : P (run Cfg.real s ls) := by
+    (hstep : ∀ s l, Inv s → P s → P (step (Cfg.of d) s l)) : P (run (Cfg.of d) s ls) := by
   induction ls generalizing s with
   | nil => exact h0
   | cons l ls ih => exact ih _ (inv_step s l hs) (hstep s l hs h0)
@@ -351,7 +353,7 @@ theorem nowCount_eq_total (s : St) (h : Inv s) (g : Seg) : nowCount s g = s.tota
       simp [h1, h2] at hr
       simp [hu, hr, h.tot_gt i k h3]
 
-theorem total_mono (s : St) (l : Label) (g : Seg) : s.total g ≤ (step Cfg.real s l).total g := by
+theorem total_mono (s : St) (l : Label) (g : Seg) : s.total g ≤ (step (Cfg.of d) s l).total g := by
   cases l with
   | flush i =>
     simp only [step, flush]
@@ -368,13 +370,13 @@ theorem total_mono (s : St) (l : Label) (g : Seg) : s.total g ≤ (step Cfg.real
     | nil =>
       by_cases hn : (s.store i).nblocks = 0
       · simp [hn]
-      · simp [hn, Cfg.real, applyRot]
+      · simp [hn, Cfg.of, applyRot]
     | cons a r => cases a <;> simp [applyRot]
   | q j k =>
-    obtain ⟨qf, hq⟩ := qStep_frame Cfg.real s j k
+    obtain ⟨qf, hq⟩ := qStep_frame (Cfg.of d) s j k
     simp [step, hq]
 
-theorem rot_mono (s : St) (h : Inv s) (l : Label) (g : Seg) : s.rot g ≤ (step Cfg.real s l).rot g := by
+theorem rot_mono (s : St) (h : Inv s) (l : Label) (g : Seg) : s.rot g ≤ (step (Cfg.of d) s l).rot g := by
   cases l with
   | flush i =>
     simp only [step, flush]
@@ -386,7 +388,7 @@ theorem rot_mono (s : St) (h : Inv s) (l : Label) (g : Seg) : s.rot g ≤ (step 
     rcases h.todoOk i with h0 | h0 | h0 | h0 <;> simp only [h0]
     · by_cases hn : (s.store i).nblocks = 0
       · simp [hn]
-      · simp [hn, Cfg.real, applyRot]
+      · simp [hn, Cfg.of, applyRot]
     · have hc := h.cap i (by simp [h0])
       have hr := h.rot_eq i (s.store i).seq
       simp [added, h0] at hr
@@ -397,7 +399,7 @@ theorem rot_mono (s : St) (h : Inv s) (l : Label) (g : Seg) : s.rot g ≤ (step 
     · simp [applyRot]
     · simp [applyRot]
   | q j k =>
-    obtain ⟨qf, hq⟩ := qStep_frame Cfg.real s j k
+    obtain ⟨qf, hq⟩ := qStep_frame (Cfg.of d) s j k
     simp [step, hq]
 
 end SigModel.Lemmas.C11
